@@ -245,6 +245,8 @@ class FA:
         if n is None:
             return EMPTY
         if isinstance(n, ast.Name):
+            if n.id not in self.env and n.id in self.f.module.globals_assigned and n.id not in self.f.module.defs:
+                return loc('@' + n.id)        # module-level variable: storage shared by all calls
             return self.env.get(n.id, EMPTY)
         if isinstance(n, ast.Constant):
             return EMPTY
@@ -635,7 +637,8 @@ class FA:
                 b = b.value
             if isinstance(b, ast.Name):
                 # content provenance: the local array now holds values copied from v
-                self.env[b.id] = self.env.get(b.id, EMPTY) | self.copy_of(v)
+                if b.id in self.env or b.id not in self.f.module.globals_assigned:
+                    self.env[b.id] = self.env.get(b.id, EMPTY) | self.copy_of(v)
         elif isinstance(t, (ast.Tuple, ast.List)):
             for e in t.elts:
                 self.assign_to(e, v)
@@ -713,15 +716,16 @@ DENOTATION_FIELDS = {'g', 'p', 'c', 'gs', 'ps', 'cs', 'r', 'generator', 'forward
 ARRAY_FIELDS = {'g', 'gs', 'ps', 'cs'}
 
 
-def mods(eff, f, roots=None):
-    """[(path, kind, via_cha)] restricted to denotation storage rooted at the given parameter names."""
+def mods(eff, f, roots=None, all_attrs=False):
+    """[(path, kind, via_cha)] restricted to denotation storage rooted at the given parameter names
+    (all_attrs: every attribute store counts, e.g. a cache attribute written by a query)."""
     out = []
     for path, kind, via in sorted(eff.summary(f).mod):
         root = path.split('.')[0]
         if roots is not None and root not in roots:
             continue
         if kind.startswith('attr:'):
-            if kind[5:] not in DENOTATION_FIELDS:
+            if kind[5:] not in DENOTATION_FIELDS and not all_attrs:
                 continue
         out.append((path, kind, via))
     return out
